@@ -5,7 +5,6 @@ CONSTANTS
   MaxDepth = 2
   PosVals <- PosNone
   Thens = {"none", "assign"}
-  UnsetAsCoded = FALSE
   MaxH = 100
 VIEW view
 INVARIANT TypeOK
